@@ -5,7 +5,8 @@ C09 — replies propagate only good contacts, nearest buckets first, right famil
 import DhtVerif.Model.Table
 import DhtVerif.Props.C05
 import DhtVerif.Lemmas.C09
-import DhtVerif.Props.SourceTrees
+import DhtVerif.Props.STGates
+import DhtVerif.Props.STNodes
 namespace Dht
 
 /-- The reply size is the K of the source. -/
